@@ -1,10 +1,380 @@
 package main
 
-// runThorough is filled in by witness.go; placeholder until witnesses exist.
-var thoroughHooks []func(c *Ctx)
+import (
+	"bytes"
+	"encoding/json"
+	"fmt"
+	"go/ast"
+	"go/token"
+	"os"
+	"os/exec"
+	"path/filepath"
+	"sort"
+	"strconv"
+	"strings"
+	"sync"
+)
+
+// Thorough tier = the quick rules, plus three explorations of the checker's own sensitivity on
+// variants of /repo's current source. Variants exist only in memory (packages.Config.Overlay, one
+// short-lived subprocess each); nothing is executed, nothing under /repo is touched.
+//
+//  1. seeded witnesses: every confirmed independent change kept under /verif/seeded/<prop>-*/ is
+//     applied to a scratch copy of the files it touches and handed over as an overlay; the
+//     property's rules must fire on it.
+//  2. second configuration: the same rules with GOARCH=386 must give the same verdicts.
+//  3. operator mutants: single-token / single-statement edits (relational operator, && / ||,
+//     0/1 constants, deletion of a call or increment statement) inside the functions the property's
+//     obligations are anchored in; each is classified killed / survived / does not compile. The kill
+//     ratio is reported in the evidence; survivors are listed, they are not failures (an edit
+//     can be behaviour-preserving or concern a clause the rules do not decide).
+//
+// A seeded witness that no longer fires is reported as a NOTE (never as a violation of the
+// property: the unchanged tree is not at fault when the checker loses sensitivity).
+
+type variantResult struct {
+	name    string
+	verdict string // killed | survived | nocompile | error
+	keys    string
+}
+
+func runVariant(prop string, overlay map[string]string, goarch string) (string, string) {
+	dir, err := os.MkdirTemp("", "gtv")
+	if err != nil {
+		return "error", err.Error()
+	}
+	defer os.RemoveAll(dir)
+	self, _ := os.Executable()
+	args := []string{"check", "-prop", prop, "-tier", "quick"}
+	if overlay != nil {
+		b, _ := json.Marshal(overlay)
+		f := filepath.Join(dir, "overlay.json")
+		os.WriteFile(f, b, 0o644)
+		args = append(args, "-overlay", f)
+	} else {
+		// a run without overlay would rewrite the evidence file: give it an empty overlay
+		f := filepath.Join(dir, "overlay.json")
+		os.WriteFile(f, []byte("{}"), 0o644)
+		args = append(args, "-overlay", f)
+	}
+	if goarch != "" {
+		args = append(args, "-goarch", goarch)
+	}
+	cmd := exec.Command(self, args...)
+	cmd.Env = append(os.Environ(), "GTVERIF_REPO="+repoDir, "GTVERIF_VERIF="+verifDir)
+	var out bytes.Buffer
+	cmd.Stdout, cmd.Stderr = &out, &out
+	err = cmd.Run()
+	s := out.String()
+	if err == nil {
+		return "survived", ""
+	}
+	if strings.Contains(s, "type/load error") || strings.Contains(s, "ERROR: load:") {
+		return "nocompile", ""
+	}
+	if strings.Contains(s, "checker panic") {
+		return "error", "checker panic"
+	}
+	if !strings.Contains(s, "VIOLATION property=") {
+		return "error", strings.TrimSpace(s)
+	}
+	var keys []string
+	for _, l := range strings.Split(s, "\n") {
+		if i := strings.Index(l, ": ["); i > 0 && !strings.HasPrefix(l, "NOTE") {
+			if j := strings.Index(l[i:], "]"); j > 0 {
+				keys = append(keys, l[i+3:i+j])
+			}
+		}
+	}
+	if len(keys) > 3 {
+		keys = keys[:3]
+	}
+	return "killed", strings.Join(keys, " ; ")
+}
 
 func runThorough(c *Ctx) {
-	for _, h := range thoroughHooks {
-		h(c)
+	// only when the quick rules are clean: otherwise every variant "fires"
+	for _, o := range c.Obl {
+		if o.Verdict == vViolation || o.Verdict == vUndecided {
+			c.Extra["thorough"] = "skipped: the quick rules already report on the unchanged tree"
+			return
+		}
 	}
+	workers := 8
+	// ---- 1. seeded witnesses
+	seeded, _ := filepath.Glob(filepath.Join(verifDir, "seeded", c.Prop+"-*", "patch.diff"))
+	sort.Strings(seeded)
+	type sw struct {
+		name    string
+		overlay map[string]string
+	}
+	var sws []sw
+	nNA := 0
+	for _, p := range seeded {
+		name := filepath.Base(filepath.Dir(p))
+		ov, err := overlayFromPatch(p)
+		if err != nil {
+			nNA++
+			c.Trivial("WITNESS", "seeded/"+name, token.NoPos, "patch no longer applies to the current source ("+err.Error()+"): not evaluated")
+			continue
+		}
+		sws = append(sws, sw{name, ov})
+	}
+	res := make([]variantResult, len(sws))
+	var wg sync.WaitGroup
+	sem := make(chan struct{}, workers)
+	for i := range sws {
+		wg.Add(1)
+		go func(i int) {
+			defer wg.Done()
+			sem <- struct{}{}
+			v, k := runVariant(c.Prop, sws[i].overlay, "")
+			<-sem
+			res[i] = variantResult{sws[i].name, v, k}
+		}(i)
+	}
+	wg.Wait()
+	fired := 0
+	for _, r := range res {
+		switch r.verdict {
+		case "killed":
+			fired++
+			c.OK("WITNESS", "seeded/"+r.name, token.NoPos, "independent seeded change detected by: "+r.keys)
+		case "nocompile":
+			c.Trivial("WITNESS", "seeded/"+r.name, token.NoPos, "seeded change no longer compiles against the current source: not evaluated")
+		default:
+			c.Note("WITNESS", "seeded/"+r.name, token.NoPos, "the seeded change applies but the rules of "+c.Prop+" do not fire on it ("+r.verdict+" "+r.keys+"): the checker has no rule for this kind of change (see DESIGN.md, table of seeded changes)")
+		}
+	}
+	c.Extra["witnesses_seeded_total"] = len(sws)
+	c.Extra["witnesses_seeded_fired"] = fired
+	c.Extra["witnesses_seeded_not_applicable"] = nNA
+	// ---- 2. second configuration
+	v386, k386 := runVariant(c.Prop, nil, "386")
+	switch v386 {
+	case "survived":
+		c.OK("CONFIG", "GOARCH=386", token.NoPos, "the same rules give the same verdicts when the repository is loaded for a 32-bit architecture")
+	case "nocompile":
+		c.Trivial("CONFIG", "GOARCH=386", token.NoPos, "the repository does not type-check for GOARCH=386: configuration not evaluated")
+	default:
+		c.Violation("CONFIG", "GOARCH=386", token.NoPos, "the rules report on the GOARCH=386 configuration although they pass on the default one: "+k386).Clause = "every build configuration"
+	}
+	// ---- 3. operator mutants inside the anchored functions
+	muts := c.operatorMutants()
+	budget := 160
+	if s := os.Getenv("GTVERIF_MUTANTS"); s != "" {
+		if n, err := strconv.Atoi(s); err == nil {
+			budget = n
+		}
+	}
+	seed := 1
+	if s := os.Getenv("VERIF_SEED"); s != "" {
+		if n, err := strconv.Atoi(s); err == nil {
+			seed = n
+		}
+	}
+	if len(muts) > budget {
+		// deterministic spread over the list
+		step := float64(len(muts)) / float64(budget)
+		var pick []opMutant
+		for i := 0; i < budget; i++ {
+			pick = append(pick, muts[(int(float64(i)*step)+seed)%len(muts)])
+		}
+		muts = pick
+	}
+	mres := make([]variantResult, len(muts))
+	for i := range muts {
+		wg.Add(1)
+		go func(i int) {
+			defer wg.Done()
+			sem <- struct{}{}
+			v, k := runVariant(c.Prop, map[string]string{muts[i].file: muts[i].content}, "")
+			<-sem
+			mres[i] = variantResult{muts[i].desc, v, k}
+		}(i)
+	}
+	wg.Wait()
+	cnt := map[string]int{}
+	var survivors []string
+	byOp := map[string][2]int{}
+	for i, r := range mres {
+		cnt[r.verdict]++
+		op := muts[i].op
+		x := byOp[op]
+		if r.verdict == "killed" {
+			x[0]++
+		}
+		if r.verdict == "killed" || r.verdict == "survived" {
+			x[1]++
+		}
+		byOp[op] = x
+		if r.verdict == "survived" && len(survivors) < 40 {
+			survivors = append(survivors, r.name)
+		}
+	}
+	c.Extra["mutants_generated"] = len(mres)
+	c.Extra["mutants_killed"] = cnt["killed"]
+	c.Extra["mutants_survived"] = cnt["survived"]
+	c.Extra["mutants_not_compiling"] = cnt["nocompile"]
+	c.Extra["mutants_errors"] = cnt["error"]
+	ops := map[string]string{}
+	for op, x := range byOp {
+		ops[op] = fmt.Sprintf("%d/%d killed", x[0], x[1])
+	}
+	c.Extra["mutants_by_operator"] = ops
+	c.Extra["mutants_survivors_sample"] = survivors
+	c.Trivial("MUTANTS", "operator-mutants", token.NoPos, fmt.Sprintf("%d single-edit variants of the anchored functions: %d killed, %d survived, %d do not compile", len(mres), cnt["killed"], cnt["survived"], cnt["nocompile"]))
+	if cnt["error"] > 0 {
+		c.Note("MUTANTS", "operator-mutants/errors", token.NoPos, fmt.Sprintf("%d variant runs ended with a checker error (counted neither as killed nor as survived)", cnt["error"]))
+	}
+}
+
+// overlayFromPatch applies a unified diff to scratch copies of the files it names and returns the
+// patched contents keyed by their path under the repository.
+func overlayFromPatch(patchFile string) (map[string]string, error) {
+	b, err := os.ReadFile(patchFile)
+	if err != nil {
+		return nil, err
+	}
+	var files []string
+	for _, l := range strings.Split(string(b), "\n") {
+		if strings.HasPrefix(l, "+++ b/") {
+			files = append(files, strings.TrimSpace(strings.TrimPrefix(l, "+++ b/")))
+		}
+	}
+	if len(files) == 0 {
+		return nil, fmt.Errorf("no file in patch")
+	}
+	dir, err := os.MkdirTemp("", "gtvp")
+	if err != nil {
+		return nil, err
+	}
+	defer os.RemoveAll(dir)
+	for _, f := range files {
+		src, err := os.ReadFile(filepath.Join(repoDir, f))
+		if err != nil {
+			return nil, fmt.Errorf("file %s not in the repository", f)
+		}
+		os.MkdirAll(filepath.Dir(filepath.Join(dir, f)), 0o755)
+		os.WriteFile(filepath.Join(dir, f), src, 0o644)
+	}
+	cmd := exec.Command("patch", "-p1", "-s", "-f", "-i", patchFile)
+	cmd.Dir = dir
+	if out, err := cmd.CombinedOutput(); err != nil {
+		return nil, fmt.Errorf("patch: %s", strings.TrimSpace(strings.Split(string(out), "\n")[0]))
+	}
+	ov := map[string]string{}
+	for _, f := range files {
+		nb, err := os.ReadFile(filepath.Join(dir, f))
+		if err != nil {
+			return nil, err
+		}
+		ov[filepath.Join(repoDir, f)] = string(nb)
+	}
+	return ov, nil
+}
+
+type opMutant struct {
+	file    string
+	content string
+	desc    string
+	op      string
+}
+
+// operatorMutants: single edits inside the functions that contain the property's obligations.
+func (c *Ctx) operatorMutants() []opMutant {
+	// functions anchored: those containing the position of some obligation
+	type span struct{ lo, hi token.Pos }
+	anch := map[string][]span{} // file -> function spans
+	lines := map[string]map[int]bool{}
+	for _, o := range c.Obl {
+		if o.File == "" || o.Line == 0 || !strings.HasSuffix(o.File, ".go") {
+			continue
+		}
+		if lines[o.File] == nil {
+			lines[o.File] = map[int]bool{}
+		}
+		lines[o.File][o.Line] = true
+	}
+	var out []opMutant
+	for _, p := range c.All {
+		for _, f := range p.Syntax {
+			fname := c.Fset.Position(f.Pos()).Filename
+			rel, _ := filepath.Rel(repoDir, fname)
+			ls := lines[rel]
+			if ls == nil {
+				continue
+			}
+			src, err := os.ReadFile(fname)
+			if err != nil {
+				continue
+			}
+			tf := c.Fset.File(f.Pos())
+			for _, d := range f.Decls {
+				fd, ok := d.(*ast.FuncDecl)
+				if !ok || fd.Body == nil {
+					continue
+				}
+				l0, l1 := c.Fset.Position(fd.Pos()).Line, c.Fset.Position(fd.End()).Line
+				hit := false
+				for l := range ls {
+					if l >= l0 && l <= l1 {
+						hit = true
+					}
+				}
+				if !hit {
+					continue
+				}
+				anch[rel] = append(anch[rel], span{fd.Pos(), fd.End()})
+				edit := func(pos, end token.Pos, repl, op, what string) {
+					a, b := tf.Offset(pos), tf.Offset(end)
+					if a < 0 || b > len(src) || a > b {
+						return
+					}
+					nb := append(append(append([]byte{}, src[:a]...), []byte(repl)...), src[b:]...)
+					out = append(out, opMutant{file: fname, content: string(nb), op: op,
+						desc: fmt.Sprintf("%s:%d %s.%s: %s", rel, c.Fset.Position(pos).Line, p.Name, fd.Name.Name, what)})
+				}
+				ast.Inspect(fd.Body, func(n ast.Node) bool {
+					switch x := n.(type) {
+					case *ast.BinaryExpr:
+						alt := map[token.Token]string{token.LSS: "<=", token.LEQ: "<", token.GTR: ">=", token.GEQ: ">", token.EQL: "!=", token.NEQ: "==", token.LAND: "||", token.LOR: "&&"}
+						if r, ok := alt[x.Op]; ok {
+							op := "ROR"
+							if x.Op == token.LAND || x.Op == token.LOR {
+								op = "LCR"
+							}
+							edit(x.OpPos, x.OpPos+token.Pos(len(x.Op.String())), r, op, fmt.Sprintf("`%s` -> `%s`", x.Op, r))
+						}
+					case *ast.BasicLit:
+						if x.Kind == token.INT && (x.Value == "0" || x.Value == "1") {
+							r := map[string]string{"0": "1", "1": "0"}[x.Value]
+							edit(x.Pos(), x.End(), r, "CRP", fmt.Sprintf("constant %s -> %s", x.Value, r))
+						}
+					case *ast.ExprStmt:
+						if _, ok := x.X.(*ast.CallExpr); ok {
+							edit(x.Pos(), x.End(), "{}", "SDL", "statement `"+oneLine(string(src[tf.Offset(x.Pos()):tf.Offset(x.End())]))+"` deleted")
+						}
+					case *ast.IncDecStmt:
+						edit(x.Pos(), x.End(), "{}", "SDL", "statement `"+oneLine(string(src[tf.Offset(x.Pos()):tf.Offset(x.End())]))+"` deleted")
+					case *ast.UnaryExpr:
+						if x.Op == token.NOT {
+							edit(x.OpPos, x.OpPos+1, "", "NEG", "negation removed from `"+oneLine(string(src[tf.Offset(x.Pos()):tf.Offset(x.End())]))+"`")
+						}
+					}
+					return true
+				})
+			}
+		}
+	}
+	sort.Slice(out, func(i, j int) bool { return out[i].desc < out[j].desc })
+	return out
+}
+
+func oneLine(s string) string {
+	s = strings.Join(strings.Fields(s), " ")
+	if len(s) > 60 {
+		s = s[:57] + "..."
+	}
+	return s
 }
